@@ -105,6 +105,6 @@ static void scenario(int nthreads)
   mc_event("ok");
 }
 
-MC_SCENARIO(trace_t1, 3, 5) { scenario(1); }
-MC_SCENARIO(trace_t2, 2, 3) { scenario(2); }
-MC_SCENARIO(trace_t3, 1, 2) { scenario(3); }
+MC_SCENARIO(trace_t1, 4, 7) { scenario(1); }
+MC_SCENARIO(trace_t2, 3, 4) { scenario(2); }
+MC_SCENARIO(trace_t3, 2, 3) { scenario(3); }
